@@ -181,7 +181,7 @@ func ValidateDecryptionKeysSignatures(
 	keyperSet *obskeyperdatabase.KeyperSet,
 ) (pubsub.ValidationResult, error) {
 	// Allow for empty signatures and signer indices
-	if len(extra.SignerIndices) == 0 || len(extra.Signature) == 0 {
+	if len(extra.SignerIndices) == 0 && len(extra.Signature) == 0 {
 		return pubsub.ValidationAccept, nil
 	}
 
